@@ -58,17 +58,24 @@ def dataOrder (sizes : List Nat) : List (Nat × Nat) :=
 def ecOrder (nblocks ec : Nat) : List (Nat × Nat) :=
   (List.range ec).flatMap fun i => (List.range nblocks).map fun b => (b, i)
 
+/-- sequence positions (within the data part of the interleaved sequence) holding the data codewords
+of block `b`, in the order of the block -/
+def blockPositions (sizes : List Nat) (b : Nat) : List Nat :=
+  ((dataOrder sizes).zipIdx.filter fun p => p.1.1 == b).map (·.2)
+
+/-- sequence positions (within the EC part) of the EC codewords of block `b` -/
+def ecPositions (nblocks ec b : Nat) : List Nat :=
+  ((ecOrder nblocks ec).zipIdx.filter fun p => p.1.1 == b).map (·.2)
+
 /-- de-interleaving: per block (data codewords, EC codewords) -/
 def deinterleave (v : Nat) (l : ECL) (cw : Array Nat) : List (List Nat × List Nat) :=
   let sizes := blockSizes v l
   let nb := sizes.length
   let ec := ecLen v l
   let total := sizes.foldl (· + ·) 0
-  let dataArr : Array (Array Nat) := (dataOrder sizes).zipIdx.foldl
-    (fun acc ((b, _), k) => acc.modify b (·.push (cw.getD k 0))) (Array.replicate nb #[])
-  let ecArr : Array (Array Nat) := (ecOrder nb ec).zipIdx.foldl
-    (fun acc ((b, _), k) => acc.modify b (·.push (cw.getD (total + k) 0))) (Array.replicate nb #[])
-  (List.range nb).map fun b => ((dataArr.getD b #[]).toList, (ecArr.getD b #[]).toList)
+  (List.range nb).map fun b =>
+    ((blockPositions sizes b).map fun k => cw.getD k 0,
+     (ecPositions nb ec b).map fun k => cw.getD (total + k) 0)
 
 structure Result where
   ecl : ECL
